@@ -18,9 +18,9 @@ class E1Outcome:
         self.kani_runs = []
 
     def exit_code(self):
-        if any(not v.get("known") for v in self.violations):
+        if any((not v.get("known")) and v.get("replay") for v in self.violations):
             return EXIT_VIOLATION
-        if self.inconclusive:
+        if self.inconclusive or any(not v.get("known") for v in self.violations):
             return EXIT_INCONCLUSIVE
         return EXIT_OK
 
@@ -37,8 +37,14 @@ def finding_key(harness_short, failed):
     return "%s|%s|%s" % (harness_short, fn, desc)
 
 
-def judge(prop, overlay, package, harness_specs, results, outcome, do_playback=True, release_too=False):
+def judge(prop, overlay, package, harness_specs, results, outcome, do_playback=True, release_too=False, max_playbacks=2):
     """harness_specs: list of dict(name=<full id>, expect='pass'|'fail', note=...)"""
+    # cheapest failing harnesses first: only the first `max_playbacks` distinct findings are replayed (each replay re-runs CBMC)
+    def _dur(hs):
+        r = results.get(hs["name"])
+        return r.duration_s if r is not None else 0
+    harness_specs = sorted(harness_specs, key=_dur)
+    played = set()
     for hs in harness_specs:
         name = hs["name"]
         r = results.get(name)
@@ -69,7 +75,14 @@ def judge(prop, overlay, package, harness_specs, results, outcome, do_playback=T
         known = match_known(prop, key)
         pb = None
         memsafe = any(MEMSAFE_PAT.search(f.get("description") or "") for f in real_failed)
+        fam_key = key.split("|", 1)[1] if "|" in key else key
+        skip_pb = fam_key in played or len(played) >= max_playbacks
+        if do_playback and not known and skip_pb:
+            outcome.violations.append(dict(key=key, harness=name, failed=real_failed[:3], known=False, replay=None, reproduced=None,
+                                           note="same failed check as an already replayed harness of this run; not replayed again", secondary=True))
+            continue
         if do_playback and not known:
+            played.add(fam_key)
             try:
                 pb = e1.playback(overlay, package, name, release_too=release_too)
             except Exception as ex:  # noqa
@@ -108,3 +121,29 @@ def summarize(outcome):
         symex_s=round(sum(r.symex_s for r in rs), 2),
         per_harness=[r.to_json() for r in rs],
     )
+
+
+def finish(prop, outcome, timer, level, coverage, assumptions, extra=None):
+    """Print verdict lines, write evidence, return exit code."""
+    from .common import write_evidence
+    code = outcome.exit_code()
+    nviol = sum(1 for v in outcome.violations if not v.get("known") and v.get("replay"))
+    for k in outcome.known:
+        print("KNOWN-FINDING: property=%s %s (%s)" % (prop, k.get("what") or k.get("key"), k.get("key")))
+    for v in outcome.violations:
+        if not v.get("known") and v.get("replay"):
+            print("VIOLATION property=%s replay=%s" % (prop, v.get("replay")))
+            log("  violated:", v.get("key"), v.get("failed"))
+        elif not v.get("known"):
+            log("  also failing (not replayed separately):", v.get("key"))
+    for r in outcome.inconclusive:
+        log("INCONCLUSIVE:", r)
+    coverage = dict(coverage)
+    coverage["inconclusive"] = outcome.inconclusive[:20]
+    coverage["known_findings_reported"] = [k.get("key") for k in outcome.known]
+    write_evidence(prop, level, coverage, timer.s(), nviol, assumptions, extra)
+    if code == EXIT_OK:
+        print("OK property=%s tier=%s (%.0fs)" % (prop, coverage.get("tier", ""), timer.s()))
+    elif code == EXIT_INCONCLUSIVE:
+        print("INCONCLUSIVE property=%s (exit 2): %d reasons, first: %s" % (prop, len(outcome.inconclusive), outcome.inconclusive[0][:300]))
+    return code
